@@ -30,6 +30,8 @@ PROPS = {
     "C11": dict(units=["POWERS", "RAT", "COMPOUND", "EVALOPS", "EVALUNIT", "EVALARMS", "LEXER", "PARSER", "GRAMMAR", "FROMSTR", "DISPLAYCORE", "DISPLAYFMT", "EVALWITHUNIT", "EVALOPFOLD"], standin=True, level="proof",
                 explanation="absence of overflow / failed assertion (former debug_assert!) / unwrap / out-of-bounds in every function under contract, under the stated bounds; error spans are token boundaries (LEXER + PARSER); eval() driver, Db::lookup, Display and the CLI are a bounded token-soup stand-in"),
     "C18": dict(units=["EVALFACT"], standin=True, level="proof",
+                forbid_seq=[dict(cid="evalfact.query_rs_passes_descriptions_through", file="src/query.rs", seq="descriptions.", what="src/query.rs only stores and hands on the `descriptions` vector (field, parameter, struct initialiser): no method is called on it there"),
+                            dict(cid="evalfact.query_rs_no_index", file="src/query.rs", seq="descriptions[", what="src/query.rs does not index into the `descriptions` vector")],
                 frame_scan=dict(cid="evalfact.frame_scan", idents=["describe", "descriptions"], item_file="src/eval.rs", item="fn eval :: arm SENTENCE | WORD",
                                 declared_in=["src/bin/", "src/query.rs"],
                                 no_interior_mutability={"src/db.rs": ["Mutex", "RwLock", "RefCell", "Cell", "OnceCell", "OnceLock", "UnsafeCell", "AtomicBool", "AtomicUsize", "AtomicU64", "unsafe", "thread_local", "lazy_static"]},
